@@ -429,12 +429,14 @@ class ResultDict(Result):
     def measurements(self) -> Mapping[str, np.ndarray]:
         if self._measurements is None:
             assert self._records is not None
-            self._measurements = {}
+            measurements = {}
             for key, data in self._records.items():
                 reps, instances, qubits = data.shape
                 if instances != 1:
                     raise ValueError('Cannot extract 2D measurements for repeated keys')
-                self._measurements[key] = data.reshape((reps, qubits))
+                measurements[key] = data.reshape((reps, qubits))
+            # Only a complete mapping is cached: a failed attempt must fail again.
+            self._measurements = measurements
         return self._measurements
 
     @property
